@@ -22,6 +22,15 @@ def uring_send_timeouts(h):
     return sca_send_timeouts(h, conn=URING)
 
 
+INPROC = "transport::inproc::connection::DirectInprocConnection"
+
+
+def inproc_send_timeouts(h):
+    """the same obligations for the inproc transport's connection (DirectInprocConnection: the peer socket's ingress
+    queue is the pipe)"""
+    return sca_send_timeouts(h, conn=INPROC)
+
+
 def sca_send_timeouts(h, conn=None):
     prog = h.it.prog
     mode = h.choose(3, "sndtimeo")                  # 0: -1 (None), 1: 0, 2: positive
@@ -41,6 +50,11 @@ def sca_send_timeouts(h, conn=None):
     if ty == SCA:
         fields = prog.struct_fields(SCA)
         vals = {"sca_stop_mailbox": Opaque("mailbox"), "sca_handle_id": 7, "pipe_sender": Agg("{chan.tx}", [ch]), "pipe_write_id_to_sca": 3, "sndtimeo": sndtimeo}
+    elif ty == INPROC:
+        fields = prog.struct_fields(ty)
+        vals = {"connection_id": 7, "target_endpoint_uri": string("inproc://x"), "peer_queue_sender": Agg("{chan.tx}", [ch]), "monitor_tx": none(),
+                "is_congested": BoxV(Cell(Agg("{atomic}", [False]), "congested"), (), "AtomicBool"), "sndtimeo": sndtimeo}
+        h.it.hooks["socket::events::clean_endpoint_uri"] = lambda it, a, d, f: a[0]      # text of a monitor event nobody listens to
     else:
         fields = prog.struct_fields(ty, features=("ipc", "inproc", "plain", "io-uring"))
         vals = {"fd": 5, "egress_tx": Agg("{chan.tx}", [ch]), "event_fd": Opaque("eventfd"), "worker_asleep": Opaque("flag"), "work_signal_gen": Opaque("gen"), "sndtimeo": sndtimeo}
